@@ -1159,6 +1159,44 @@ pub fn default_expr_subjects(_tier: Tier, out: &mut Vec<Subj>) {
         (Inner::Int(IntTy::I8), "-(100 + 27)", Val::I(-127), Validation::Std(vec![Vd::Less(Bound::lit(Val::I(-126)))])),
         (Inner::Int(IntTy::I64), "1 << 40 | 1", Val::I((1i128 << 40) | 1), Validation::None),
     ];
+    // a finite literal default that the sanitizer sends to infinity: `finite` judges the sanitized value
+    for (k, inner) in [Inner::F64, Inner::F32].into_iter().enumerate() {
+        let zero = if inner == Inner::F64 { Val::f64(0.0) } else { Val::f32(0.0) };
+        let two = if inner == Inner::F64 { Val::f64(2.0) } else { Val::f32(2.0) };
+        for dv in [zero.clone(), two.clone()] {
+            let mut d = Decl::new("X", inner);
+            d.sans = vec![San::With(UFn::Recip, if k == 0 { Spell::Path } else { Spell::Closure })];
+            d.validation = Validation::Std(vec![Vd::Finite]);
+            d.default = Some(dv);
+            d.derives = max_derives(&d, false);
+            // (no Eq/Ord: the order-law exploration of C12 rebuilds values from their stored form, which needs an
+            // idempotent sanitizer)
+            d.derives.retain(|t| !matches!(t, Tr::Arbitrary | Tr::Eq | Tr::Ord));
+            out.push(Subj { decl: d, tag: "default/finite-literal-to-infinity".into(), serde_full: false });
+        }
+    }
+    // an UNANCHORED regex (matches when the value merely contains a match), before and after other validators
+    for (k, vs) in [
+        vec![Vd::Regex(Re::HasDigit, ReSpell::Lit), Vd::LenCharMax(Bound::lit(Val::U(2)))],
+        vec![Vd::NotEmpty, Vd::Regex(Re::HasDigit, ReSpell::StaticPath), Vd::Predicate(UFn::NoX, Spell::Path)],
+        vec![Vd::Regex(Re::HasDigit, ReSpell::Lit)],
+    ]
+    .into_iter()
+    .enumerate()
+    {
+        let mut d = Decl::new("X", Inner::Str);
+        d.sans = if k == 1 { vec![San::Trim] } else { vec![] };
+        d.validation = Validation::Std(vs);
+        d.derives = max_derives(&d, false);
+        out.push(Subj { decl: d, tag: "string/unanchored-regex".into(), serde_full: k == 0 });
+    }
+    // a newtype whose own name ends in `Error` (the generated error types are `<Name>Error`, `<Name>ParseError`)
+    for (inner, val) in [(Inner::Int(IntTy::U8), Validation::Std(vec![Vd::LessOrEqual(Bound::lit(Val::U(100))), Vd::Greater(Bound::lit(Val::U(3)))])), (Inner::Str, Validation::Std(vec![Vd::LenCharMax(Bound::lit(Val::U(3))), Vd::NotEmpty])), (Inner::F64, Validation::Std(vec![Vd::GreaterOrEqual(Bound::lit(Val::f64(0.0)))]))] {
+        let mut d = Decl::new("X", inner);
+        d.validation = val;
+        d.derives = max_derives(&d, false);
+        out.push(Subj { decl: d, tag: "name-ends-with-Error".into(), serde_full: true });
+    }
     // a VALID default under a non-idempotent sanitizer (the sanitizer must run exactly once on it)
     for (k, (inner, san, val, dv)) in [
         (Inner::Int(IntTy::I32), San::With(UFn::WrapAdd1, Spell::Path), Validation::Std(vec![Vd::Less(Bound::lit(Val::I(100)))]), Val::I(5)),
@@ -1200,7 +1238,7 @@ pub fn rt_subjects(tier: Tier) -> Vec<Subj> {
     closure_return_subjects(tier, &mut out);
     default_expr_subjects(tier, &mut out);
     for (i, s) in out.iter_mut().enumerate() {
-        s.decl.name = name_for(i);
+        s.decl.name = if s.tag == "name-ends-with-Error" { format!("{}Error", name_for(i)) } else { name_for(i) };
         // serde glue dominates compile time: keep it on every third subject (and all serde_full ones)
         if i % 3 != 0 && !s.serde_full {
             s.decl.derives.retain(|t| !matches!(t, Tr::Serialize | Tr::Deserialize));
